@@ -16,10 +16,10 @@ from ..simdev.base import World, Device, SW, DropLinkBase, DeviceFault
 from .c09 import DetRandom, PIN_FILE, PIN_DIR
 
 FILE_STATES = {
-    "absent": None, "valid": b"abcd1234", "digits": b"12345678", "short": b"abc1234",
-    "newline": b"abcd1234\n", "empty": b"", "nine": b"abcd12345", "symbol": b"abcd123!",
+    "absent": None, "valid": b"a1b2a3c1", "digits": b"12345678", "short": b"abc1234",
+    "newline": b"a1b2a3c1\n", "empty": b"", "nine": b"abcd12345", "symbol": b"abcd123!",
 }
-DEFAULT_PIN = b"1234abcd"
+DEFAULT_PIN = b"12d4a2cd"
 NOMINAL = None
 
 
